@@ -183,6 +183,25 @@ def check_program(shard, prog, base_extra, configs, choices_list, max_len=5, alp
                 continue
             datas.append(bytes(d))
         if datas:
+            # byte sweep: after up to six prefixes of the guided inputs every byte value once (range checks, collapsed ranges and sparse
+            # sets are rendered differently per option set; one representative per class would not see a single dropped value)
+            sweep = []
+            cuts = []
+            for d in datas[:2]:
+                for cut in sorted(set([0, len(d) // 2, max(0, len(d) - 1)] + list(range(1, min(len(d), 4))))):
+                    if (d[:cut]) not in [c for c in cuts]:
+                        cuts.append(d[:cut])
+            for pre in cuts[:6]:
+                d, cut = pre, len(pre)
+                for b in range(256):
+                    w = d[:cut] + bytes([b])
+                    try:
+                        trace.am_calls(mb, [w[j:j + 1] for j in range(len(w))], indirect=base.compiled.do("INDIRECT_START_PTR"))
+                    except (am_mod.Undefined, am_mod.Spin):
+                        continue
+                    sweep.append(w)
+            shard.event("sweep_inputs", len(sweep))
+            datas = datas + sweep
             bins = []
             try:
                 for i, c in enumerate([base.compiled] + comps):
